@@ -73,8 +73,11 @@ def search(ctx):
     return out[:4000]
 
 
-# deviation classes that concern the files of a compilation, not macro expansion
-FILE_LEVEL = {"pragma-once-by-include-name", "duplicate-api-define", "paste-in-api-define"}
+# deviation classes that concern the files of a compilation, not macro expansion: none is left (pragma-once-by-include-name
+# was repaired by d66a6d7, duplicate-api-define / paste-in-api-define by 9f7cdb8; the harness no longer offers them as
+# explanations).  `invocation-spans-file-boundary` is deliberately NOT exempt: the program-level class excludes blocks that
+# end in a function-like name at a file boundary, so a tame program must not show it.
+FILE_LEVEL = set()
 
 
 def custom(ctx):
@@ -137,10 +140,13 @@ SPEC = {
         "parse_yields_wellformed_macro", "directive_takes_effect_from_its_line",
         "api_defines_equal_file_defines_tokens", "include_of_empty_file",
         "include_is_paste", "pragma_once_once",
-        "differs_line_end_before_parenthesis", "differs_unused_argument_expanded", "differs_argument_repainted",
+        "invocation_may_continue_on_next_line", "agrees_line_end_before_parenthesis",
+        "api_define_with_line_break_is_rejected",
+        "differs_unused_argument_expanded", "differs_argument_repainted",
         "differs_painted_function_name_reinvoked", "differs_painted_function_name_reinvoked_acyclic",
         "differs_function_name_before_vanished_macro", "differs_empty_argument_next_to_paste",
-        "agrees_on_invocation_completed_after_expansion", "differs_outside_class_with_paste"]],
+        "agrees_on_invocation_completed_after_expansion", "differs_outside_class_with_paste",
+        "differs_invocation_spanning_file_boundary"]],
     "harness": "c12",
     "nontrivial": nontrivial,
     "finding_key": finding_key,
@@ -158,14 +164,19 @@ SPEC = {
                   "replacement lists, parenthesised commas, self- and mutually referential macros, ## between tokens of the "
                   "replacement list and/or parameters; for tables of object-like macros every token list is tame "
                   "(object_like_refines_spec: object-like macros in full). The side conditions of the class are each shown "
-                  "necessary by a witness evaluated in Lean on model and reference (differs_*: line end before '(', unused "
+                  "necessary by a witness evaluated in Lean on model and reference (differs_*: unused "
                   "argument, argument repainted, painted name re-invoked, name before a vanished macro, empty argument next to "
-                  "##) and replayed on the real code. ## : one paste step replaces l ws* ## ws* r by one token spelled l+r "
+                  "##) and replayed on the real code. Since fix f08088c the search for the '(' of an invocation skips line ends "
+                  "like C (invocation_may_continue_on_next_line: universally, parenAfter finds '(' iff the next token that is "
+                  "not white space is '('; agrees_line_end_before_parenthesis: the former witnesses now lie in the class). ## : one paste step replaces l ws* ## ws* r by one token spelled l+r "
                   "(paste_is_single_token); which joined spellings are one token agrees with the lexer model of C10 "
                   "(identifiers and decimal numbers universally, the 49 operator pairs exhaustively, keyword tables). Scope of definitions: the list "
                   "never holds two entries of a name, lookup = latest #define not followed by #undef, a directive takes effect "
                   "from its line; API defines = #define lines before the first line (every entry file); #include = the file's "
-                  "lines between two block boundaries (empty file: one line end); a #pragma once file contributes once. PARTIAL: "
+                  "lines between two block boundaries (empty file: one line end; an invocation does not span the start or end of an "
+                  "included file: known finding invocation-spans-file-boundary against the textual reading); a #pragma once file "
+                  "contributes once under every include name that reaches it (pragma_once_once, once-set keyed by the real name "
+                  "since fix d66a6d7); an API define with a line break is rejected (fix 3c81ed5). PARTIAL: "
                   "(a) of ##: operands or results that are enabled macro names, ## inside the argument list of a nested invocation, "
                   "empty arguments next to ## lie outside the class; (b) invocations completed by the text after the end of an "
                   "expansion are excluded from the class (universal statement for the model: trailing_function_name_is_invoked; "
@@ -178,7 +189,7 @@ SPEC = {
             "independent reference C preprocessor (Prosser's hide-set algorithm) written in the harness; generated programs: "
             "1-6 macros with 0-3 parameters, bodies of up to 8 elements referring to parameters, other macros, themselves, with "
             "## pastes; 1-10 invocation sites with nested invocations, parenthesised commas, empty arguments, wrong arities, "
-            "argument lists spanning lines, bodies ending in a function-like name (followed by nothing, a parameter or an "
+            "argument lists spanning lines, line ends between a macro name and '(', bodies ending in a function-like name (followed by nothing, a parameter or an "
             "object-like macro that may expand to nothing), sites continued by parenthesised groups (M()(2)(1)), comments and "
             "blanks at token boundaries; redefinitions and #undef between the sites; 1-5 files with and without #pragma once, "
             "repeated and back-edge includes; every leading object-like definition placed in the file, in the API list, and split; "
@@ -189,7 +200,8 @@ SPEC = {
         "Lean 4.33 kernel; axioms propext / Classical.choice / Quot.sound only (audited by #print axioms)",
         "tools/gens/c12.py (MacroTables: any_word keyword arms, preprocess_command directive arms and the retain/push shape of "
         "define/undef, the pragma names, Token::is_whitespace, the apply_macros_internal call that expands arguments, every "
-        "MacroSearchPosition literal and the conditions of find_single_macro that consult it, the Macro::parse + retain + push "
+        "MacroSearchPosition literal and the conditions of find_single_macro that consult it, the three trimming loops and "
+        "which of them split_macro_args / find_single_macro / the arity test use, the Macro::parse + retain + push "
         "path of initial defines, compile()'s built-in defines) and tools/gens/c10.py (LexTables, for paste_matches_lexer) — "
         "re-run on /repo's working tree every time",
         "hand-written Model/Macro.lean and Model/Include.lean mirror preprocess.rs; tied to the code by the correspondence run only",
@@ -203,7 +215,9 @@ SPEC = {
         "tokens are identifiers, decimal integers without suffix, ( ) , ## and the operators + - * ; = { }; white space is one "
         "blank or a line end; pastes that produce anything but an identifier, a decimal integer or one of ++ -- += -= *= == "
         "are answered 'unsupported' by the model (counted)",
-        "conditional directives and defined() are C11's; the include handler is deterministic",
+        "conditional directives and defined() are C11's; the include handler is deterministic and reports one content per "
+        "real file name (FileLoader serves the content stored when a real name was first seen; a request that gives two "
+        "contents to one real name is answered 'unsupported' by the model)",
         "include recursion is cut by fuel in the model (the code has no bound: C08)",
     ],
 }
